@@ -893,6 +893,28 @@ fn length_f64<B: Bz<f64>>(s: &Section, curves: &[SearchCurve], chains: &[&[u16]]
 }
 
 /// the largest step counts (u16): doubling n = 32767 asks for 65535, the largest value the parameter type admits
+/// Exact tier for floats: a straight, uniformly parametrised curve along one coordinate axis with control values in arithmetic
+/// progression from 3 to 6 (or 6 to 3), all other lanes 0.  Every sample is a float in [3,6] (a multiple of ulp(3)), consecutive
+/// samples are hundreds of ulps apart (so the computed sequence is monotone), every segment length |x_{k+1} - x_k| and every partial
+/// sum x_k - x_0 < 4 is a multiple of ulp(3) below 2^24 ulps, hence exactly representable: whatever the sample positions and the
+/// summation order, a polyline that starts at `start` and ends at `end` has computed length exactly 3.
+fn length_exact_float<F: El, B: Bz<F>>(s: &Section, counts: &[u16]) {
+    let site = format!("{}::length_by_discretization", B::NAME);
+    for axis in 0..B::D { for rev in [false, true] {
+        let pts: Vec<P<F>> = (0..B::K).map(|i| { let num = 3 * i as i128; let q = Q::int(3).add(Q::new(num, (B::K - 1) as i128)); let q = if rev { Q::int(9).sub(q) } else { q }; let mut p = [F::of_q(Q::ZERO), F::of_q(Q::ZERO), F::of_q(Q::ZERO)]; p[axis] = F::of_q(q); p }).collect();
+        let cur = B::build(&pts);
+        for &n in counts {
+            let inp = || json!({"type": B::NAME, "elem": F::NAME, "axis": axis, "controls_on_that_axis": pts.iter().map(|c| c[axis].as_f64()).collect::<Vec<_>>(), "other_lanes": 0, "step_count": n});
+            s.eval(true);
+            s.class(if (n as u32 + 1).is_power_of_two() { "segment-count-power-of-two" } else { "segment-count-not-a-power-of-two" });
+            s.class(F::NAME);
+            if let Some(l) = s.call(&site, &inp, || cur.length(n)) {
+                if l.as_f64() != 3.0 { s.violation_w(&site, "exactly-summable-straight-curve-has-not-length-3", json!({"input": inp(), "length": format!("{:?}", l), "want": 3.0, "why": "every sample, segment and partial sum is exactly representable: the polyline does not run from start to end"}), n as u64); }
+            }
+        }
+    }}
+}
+
 fn length_boundary<B: Bz<f64>>(s: &Section) {
     let site = format!("{}::length_by_discretization", B::NAME);
     // straight curve from (0,0,0) along (2,3,6) (norm 7), control values 0,1,2(,3): chord = polygon = 7*(K-1)
@@ -1584,6 +1606,16 @@ fn main() {
         length_f64::<CubicBezier2<f64>>(s, &curves_from(4, if th { &pts2_len } else { &pts2_4 }, false, false), chains(th));
         length_f64::<QuadraticBezier3<f64>>(s, &curves_from(3, &pts3_len, false, false), chains(th));
         length_f64::<CubicBezier3<f64>>(s, &curves_from(4, &pts3_len, false, false), chains(th));
+    });
+    rep.section("discretized length of exactly summable straight curves (f32 and f64, any step count)",
+        "length_by_discretization on f32 and f64 for the straight uniformly parametrised curve along each coordinate axis with control values 3 .. 6 in arithmetic progression (and reversed, 6 .. 3), other lanes 0, at step counts 0, 1, 2, 3, 4, 6, 9, 99, 127, 999, 1023, 9999, 24999, 32767, 49999, 65534, 65535: all samples lie in [3,6], are hundreds of ulps apart, and every segment length and partial sum is a multiple of ulp(3) below 4, hence exact in the element type - so the result is exactly 3 for any polyline that starts at start and ends at end, whatever its sample positions and summation order; a parameter that drifts (accumulated increments) or a last sample short of 1 shows as a result != 3, far below the general sections' forward error bound; non-trivial: all",
+        true, false, |s| {
+        s.require_classes(&["segment-count-power-of-two", "segment-count-not-a-power-of-two", "f32", "f64"]);
+        let counts: [u16; 17] = [0, 1, 2, 3, 4, 6, 9, 99, 127, 999, 1023, 9999, 24999, 32767, 49999, 65534, 65535];
+        length_exact_float::<f32, QuadraticBezier2<f32>>(s, &counts); length_exact_float::<f64, QuadraticBezier2<f64>>(s, &counts);
+        length_exact_float::<f32, QuadraticBezier3<f32>>(s, &counts); length_exact_float::<f64, QuadraticBezier3<f64>>(s, &counts);
+        length_exact_float::<f32, CubicBezier2<f32>>(s, &counts); length_exact_float::<f64, CubicBezier2<f64>>(s, &counts);
+        length_exact_float::<f32, CubicBezier3<f32>>(s, &counts); length_exact_float::<f64, CubicBezier3<f64>>(s, &counts);
     });
     rep.section("discretized length at the largest step counts (f64)",
         "length_by_discretization on f64 for one straight curve per type (direction (2,3,6), chord = control polygon) at step counts 16383, 32766, 32767, 65533, 65534, 65535 (refinement by doubling of 32767 asks for 65535, the largest u16): \
